@@ -273,6 +273,11 @@ class BayesianProblem(object):
                 Ce = Ce.ravel()[0]*np.eye(self.model.range_dim)
             if np.size(Cx)==1:
                 Cx = Cx.ravel()[0]*np.eye(self.model.domain_dim)
+            # If Ce and Cx are vectors, they hold the diagonal of the covariance
+            if np.ndim(Ce)==1:
+                Ce = np.diag(Ce)
+            if np.ndim(Cx)==1:
+                Cx = np.diag(Cx)
 
             #Basic MAP estimate using closed-form expression Tarantola 2005 (3.37-3.38)
             rhs = b-A@x0
